@@ -201,12 +201,15 @@ class World:
         names = [p[0] for p in params]
         argdict = "dict(" + ", ".join(f"{n}={n}" for n in names) + ")"
         pyname = py_name(self.scn, fid)
-        if kind in ("fn", "gen"):
+        if kind in ("fn", "gen", "coro"):
             if kind == "fn":
                 body = f"    return _I.body({fid!r}, {argdict})\n"
+            elif kind == "coro":
+                # coroutine function: the call returns at once, the body runs when the coroutine is driven (op 'next')
+                body = f"    for _seg in _I.gen_body({fid!r}, {argdict}):\n        pass\n    return None\n"
             else:
                 body = f"    for _seg in _I.gen_body({fid!r}, {argdict}):\n        yield _seg\n"
-            src = f"def {pyname}({', '.join(sig)}){ret}:\n{body}"
+            src = f"{'async ' if kind == 'coro' else ''}def {pyname}({', '.join(sig)}){ret}:\n{body}"
             exec(src, ns)
             f = ns[pyname]
             f.__module__ = "simworld"
@@ -632,7 +635,7 @@ class Interp:
             out = {"ret": type(res).__name__}
             if op.get("store"):
                 run.vars[op["store"]] = res
-                if kind == "gen":
+                if kind in ("gen", "coro"):
                     run.gen_pending[op["store"]] = (op, path)
         except BaseException as e:
             out = exc_outcome(e)
@@ -646,6 +649,8 @@ class Interp:
             return "novar"
         self.run.current_next = op["var"]
         try:
+            if hasattr(g, "send") and not hasattr(g, "__next__"):
+                return {"yielded": g.send(None)}  # coroutine object: drive it one step
             return {"yielded": next(g)}
         except StopIteration:
             return "stop"
